@@ -1,7 +1,7 @@
 def _conclusive(run):
     """networked cases are re-run by the harness before they are given up: a run in which more than a
     quarter of them stay inconclusive says nothing and must not pass silently"""
-    net = sum(run.arms.get(k, 0) for k in ("raft1", "kill", "net"))
+    net = sum(run.arms.get(k, 0) for k in ("raft1", "kill", "net", "redir"))
     bad = run.inconclusive
     run.oblig("networked-cases-conclusive", bad <= max(2, (net + bad) // 4),
               "%d inconclusive of %d networked cases" % (bad, net + bad))
@@ -10,14 +10,17 @@ def _conclusive(run):
 CHECK = {
     "suites": [
         suite("fsm", "c01", 400, 6000, stdin=True),
+        suite("redir", "c01", 3, 18, stdin=True, args=["-kind", "redir"], timeout={"quick": 600, "thorough": 1500}),
         suite("raft1", "c01", 0, 30, stdin=True, tiers=["thorough"], args=["-kind", "raft1"], timeout={"thorough": 1200}),
         suite("kill", "c01", 0, 16, stdin=True, tiers=["thorough"], args=["-kind", "kill"], timeout={"thorough": 1200}),
         suite("net", "c01", 0, 24, stdin=True, tiers=["thorough"], args=["-kind", "net"], timeout={"thorough": 1200}),
     ],
+    "gen": [{"pkg": "extract_c01", "out": "lean/ClusterVerif/Gen/C01Commit.lean"}],
     "extra": [_conclusive],
     "search_seeds": {"quick": 3, "thorough": 1},
     "lean_sources": ["ClusterVerif/Model/Pin.lean", "ClusterVerif/Model/C01.lean", "ClusterVerif/Spec/C01.lean",
-                     "ClusterVerif/Lemmas/C01.lean", "ClusterVerif/Lemmas/PinMap.lean"],
+                     "ClusterVerif/Lemmas/C01.lean", "ClusterVerif/Lemmas/PinMap.lean",
+                     "ClusterVerif/Model/C01Commit.lean", "ClusterVerif/Lemmas/C01Commit.lean", "ClusterVerif/Gen/C01Commit.lean"],
     "rule": "one case = one history: a committed sequence of 0-60 pin/unpin LogOps over 6 CIDs (all pin types, modes/depths incl. disagreeing ones, "
             "allocation lists 0-4, metadata incl. empty key/value, expiry zero/unix-zero/past/future, reference and update cids of both CID versions, "
             "user allocations, tracing on/off) and a script of events on 1-3 replicas (apply next entry, Snapshot(), Persist(), install the newest "
@@ -25,13 +28,16 @@ CHECK = {
             "Families per case index: random walks with catch-up epilogue, systematic placement of one disruption at every position of a 3-6 op history, "
             "late-Persist scripts (K09 stream), histories ending in an op with origins (K01a stream). Thorough adds real Raft: one node "
             "(commit/snapshot/shutdown/OfflineState/restart), a node in a child process SIGKILLed with an op in flight, three nodes with TrailingLogs=1 "
-            "where a stopped follower is brought back by InstallSnapshot onto its restored state. non-trivial = at least one entry applied; distinct by case line",
+            "where a stopped follower is brought back by InstallSnapshot onto its restored state. Suite redir (both tiers): three real nodes, CommitRetries 0-2, "
+            "LogPin/LogUnpin/AddPeer/RmPeer submitted at a follower or the leader while the leader's RPC endpoint fails the next N forwarded requests "
+            "(N = 0, retries, retries+1, retries+2). The undecodable stream draws origins, Reference=cid.Undef and undefined Cid. non-trivial = at least one entry applied; distinct by case line",
     "trusted_base": [
         "Raft (hashicorp/raft + raft-boltdb) delivers one committed sequence to every member, keeps every entry after a member's newest snapshot, "
         "and fsyncs entries before acknowledging: the committed sequence `ops` is a parameter of the model",
         "the FSM-level harness plays Raft's role (which entry is next, which snapshot is newest) as hashicorp/raft v1.1.1 does; its 'applied' counter mirrors raft.lastApplied",
         "hook file /repo/consensus/raft/verif_export_c01.go (VerifNewFSM = first half of NewConsensus without a Raft instance, VerifEncodeOp/VerifEncodeTracedOp = "
         "the LogOp as commit() builds it, encoded like go-libp2p-raft encodeOp; VerifRaft, VerifLogCommands read-only accessors)",
+        "extract_c01 (go/ast) reads the statement skeleton of redirectToLeader/commit/AddPeer/RmPeer; the fault injector of suite redir stands for an unreachable or abdicating leader",
         "recording PinTracker behind a real in-process gorpc server; in-memory datastore as cmdutils.raftStateManager.GetStore provides",
     ],
     "assumptions": [
@@ -46,7 +52,9 @@ META = {
             "committed value of a present-or-future prefix, a caught-up peer serves exactly the replay of the whole sequence, and every peer can always catch up "
             "again (future_inv, caught_up_exact, catch_up_reachable, ack_visible_durable); for schedules with point-in-time snapshots a peer serves exactly "
             "replay(ops.take applied) (prefix_inv_partial) and the model's observations satisfy every clause of the property as written from its text "
-            "(model_holds_partial); an applied entry hands exactly its pin to the tracker (tracker_handoff). The full-strength statements are refuted by "
+            "(model_holds_partial); the commit path (commit/AddPeer/RmPeer over redirectToLeader), as a function of an oracle of attempt outcomes with the statement "
+            "skeleton regenerated from the source by a go/ast translator, acknowledges only what some attempt committed, reports an error exactly when none did, and "
+            "consumes at most (CommitRetries+1)^2 attempts (ack_implies_some_attempt_committed, all_fail_reports_error, retry_bound); an applied entry hands exactly its pin to the tracker (tracker_handoff). The full-strength statements are refuted by "
             "kernel-checked witnesses where the code really breaks them (prefix_inv_fails / some_prefix_fails: go-libp2p-raft snapshots are not point-in-time, K09; "
             "decode_total_fails / caught_up_exact_fails: pins with origins, K01a). The model is tied to the code by driving the real FSM (and, thorough, real Raft "
             "nodes incl. SIGKILL and InstallSnapshot) with seeded event scripts and comparing every observation with the model, and the Spec clauses are evaluated on the implementation's observations.",
